@@ -304,6 +304,7 @@ def main(argv=None):
     if args.digest_only:
         from sim.seeds import digest
         acc.pop("wall", None)
+        acc.pop("shard_wall_s", None)
         print("DIGEST %s" % digest(json.dumps([acc, [v.get("signature") for v in violations]], sort_keys=True)))
         return 0
 
